@@ -1,5 +1,6 @@
 /- Driver ops `cp.decode` / `cp.encode`: independent content-pack decoder and writer model. -/
 import JubakoModel.Model.ContentPack
+import JubakoModel.Model.CreatorFast
 import Driver.OpsPack
 
 namespace Jubako.Driver
@@ -121,7 +122,9 @@ def runContent (fileOf : String → IO Bytes) (op : String) (args : List String)
                 | none => false
               | none => false
           ⟨data, comp⟩)
-        let (closed, infos) := (Creator.init.addAll items).finalize
+        -- `FastCreator` is the O(1)-per-item implementation of the creator model; theorem
+        -- `fast_finalize_eq` (Lemmas/CreatorFast.lean): (FastCreator.addAll items).finalize = (Creator.init.addAll items).finalize
+        let (closed, infos) := (FastCreator.addAll items).finalize
         -- arrival order = order of the clusters in the file
         let order := (d.clusters.toList.map (fun c => (c.so.1, c.idx))).mergeSort (fun a b => a.1 ≤ b.1)
         let arrival := order.filterMap (fun (_, idx) => closed.find? (fun c => c.idx == idx))
